@@ -388,6 +388,7 @@ func (c *Cluster) dagReplay(variants int) {
 		return
 	}
 	c.stats.probe("dagreplay-dag")
+	c.crossCheckRefModel(ref)
 	c.trace.add(fmt.Sprintf("dag:%s:%d", c.dagShape(), len(ref.sn.app.log)))
 	c.stats.BlocksDelivered += len(ref.sn.app.log)
 	c.stats.probeMax("dagreplay-events-max", len(base))
@@ -447,6 +448,7 @@ func (c *Cluster) dagReplay(variants int) {
 			}
 			batch = 1
 			order = c.dag.prioritised(r, base, c.synthNears[vi/2][vi%2])
+			name = fmt.Sprintf("%s#%d", kind, vi)
 		}
 		c.stats.fault("insertion-order-variant")
 		name = fmt.Sprintf("%s[%s cache=%d batch=%d events=%d/%d window=%d]", name, storeKind, cache, batch, len(order), len(base), window)
@@ -525,4 +527,35 @@ func (c *Cluster) blockProp() string {
 		return "C01"
 	}
 	return "C03"
+}
+
+// crossCheckRefModel compares the reference model that steers the synthetic
+// histories (refmodel.go) with what the reference instance computed: rounds,
+// witnesses and the fame the model decides. A difference is reported under the
+// pseudo-property REFMODEL (an alert about the harness's model, never a verdict
+// on a listed property).
+func (c *Cluster) crossCheckRefModel(ref *instance) {
+	if c.refDag == nil {
+		return
+	}
+	d := c.refDag
+	f := d.computeFame(int(hg.COIN_ROUND_FREQ), refMiddleBit)
+	for id, hsh := range d.hash {
+		fx, ok := ref.facts(hsh)
+		if !ok {
+			continue
+		}
+		if fx.round != d.round[id] || fx.witness != d.witness[id] {
+			c.violate("REFMODEL", "model", "round-or-witness", "event %s: model round %d witness %v, implementation round %d witness %v", short(hsh), d.round[id], d.witness[id], fx.round, fx.witness)
+			return
+		}
+		if mf, ok := f.fame[id]; ok && fx.fame != 0 {
+			if (mf == 1) != (fx.fame == 1) {
+				c.violate("REFMODEL", "model", "fame", "witness %s (round %d): model decides famous=%v, implementation %v", short(hsh), d.round[id], mf == 1, fx.fame == 1)
+				return
+			}
+			c.stats.probe("refmodel-fame-agrees")
+		}
+	}
+	c.stats.probe("refmodel-cross-checked")
 }
